@@ -9,6 +9,7 @@ package main
 import (
 	"encoding/json"
 	"fmt"
+	"math"
 	"os"
 	"strconv"
 	"strings"
@@ -98,6 +99,12 @@ func oddProfile(class string) *profile.Profile {
 		p.Comments = []string{"c\"1\n", "\xfe"}
 		p.Sample[0].Label = map[string][]string{"k\"": {"v\n<"}}
 		p.DropFrames, p.KeepFrames = "(", "["
+	case "extremevalues":
+		// the extremes of int64 in sample values and numeric labels (negating MinInt64 gives MinInt64 again)
+		p.Sample[0].Value = []int64{math.MinInt64, math.MaxInt64}
+		p.Sample[1].Value = []int64{math.MaxInt64, math.MinInt64}
+		p.Sample[1].NumLabel = map[string][]int64{"bytes": {math.MinInt64, math.MaxInt64}}
+		p.Sample[1].NumUnit = map[string][]string{"bytes": {"bytes", "bytes"}}
 	case "zerovalues":
 		for _, s := range p.Sample {
 			for i := range s.Value {
